@@ -1,3 +1,4 @@
+import MdVerif.Proofs.DcdLemmas
 import MdVerif.Proofs.XdrLemmas
 import MdVerif.Model.Formats
 import MdVerif.Proofs.MicLemmas
@@ -356,3 +357,31 @@ example : f32ToRat 0x4B000001 = some 8388609 := by decide +kernel               
 example : writeTrr [⟨1, 0, 0, 0, [1, 2, 3, 4, 5, 6, 7, 8, 9], [0, 0, 0]⟩] ≠ writeTrr [⟨1, 0, 0, 0, [1, 4, 7, 2, 5, 8, 3, 6, 9], [0, 0, 0]⟩] := by decide +kernel
 
 end MdVerif.Xdr
+
+/-! ## the bytes of a .dcd file (Model/Dcd.lean) -/
+namespace MdVerif.Dcd
+
+/-- **the .dcd layout round trip**: header and frames (any atom count, with or without the cell record, any payload) are read back from the
+bytes mdtraj writes by a reader that derives the number of frames from the size of the file -/
+theorem c01_dcd_roundtrip (h : Header) (fs : List Frame) (hw : h.WF) (hf : ∀ f ∈ fs, f.WF h.hasCell h.natoms) :
+    readDcd (writeDcd h fs) = some (h, fs) := by
+  have hb : ∀ w ∈ renderFile h fs, w < 4294967296 := by
+    intro w hm
+    simp only [renderFile, List.mem_append] at hm
+    rcases hm with hm | hm
+    · exact renderHeader_bound h hw w hm
+    · obtain ⟨f, hfm, hwf⟩ := List.mem_flatMap.mp hm
+      exact renderFrame_bound h.hasCell h.natoms f (hf f hfm) hw.2.2.2.2.2.2.2 w hwf
+  have e1 : toWords (bytesOfWords (renderHeader h ++ fs.flatMap renderFrame)) = some (renderHeader h ++ fs.flatMap renderFrame) :=
+    toWords_bytesOfWords _ hb
+  have e2 := parseHeader_render h hw (fs.flatMap renderFrame)
+  have e3 := parseFrames_render h.hasCell h.natoms fs hf ((fs.flatMap renderFrame).length + 1) (by have := flatMap_frames_length fs; omega)
+  simp only [readDcd, writeDcd, renderFile, e1, Option.bind_eq_bind, Option.bind_some, e2, e3, Option.pure_def]
+
+/-! double precision words (tests of the decoder on constants) -/
+example : f64ToRat 0 0x3FF00000 = some 1 := by decide +kernel
+example : f64ToRat 0 0xC0040000 = some (-5/2) := by decide +kernel
+example : f64ToRat 0x9999999A 0x3FB99999 = some (3602879701896397 / 36028797018963968) := by decide +kernel    -- 0.1
+example : f64ToRat 0 0x7FF00000 = none := by decide +kernel
+
+end MdVerif.Dcd
